@@ -444,8 +444,21 @@ def _used_names_in_file(filename: Path) -> Collection[str]:
             # Attributes and class methods are hard to trace (it basically requires
             # type checking), so we always add them to preserve.
             names.append(node.attr)
+            # obj._Engine__step is how code outside of the class Engine spells its private __step
+            names.extend(
+                node.attr[match.start() :]
+                for match in re.finditer(r"(?<=[^_])__(?=[^_])", node.attr)
+                if node.attr.startswith("_") and not node.attr.endswith("__")
+            )
             if isinstance(node.value, ast.Name) and node.value.id in imported_names:
                 names.append(node.value.id)
+
+    # Point(xCoord=1) and "case Point(xCoord=1)" name a parameter or field of something defined
+    # elsewhere, which is as hard to trace as an attribute
+    names.extend(node.arg for node in core.walk(ast_root, ast.keyword) if node.arg)
+    if hasattr(ast, "MatchClass"):
+        for node in core.walk(ast_root, ast.MatchClass):
+            names.extend(node.kwd_attrs)
 
     for node in core.walk(ast_root, ast.ImportFrom):
         # What is imported from another file must keep its name over there,
